@@ -18,18 +18,30 @@ type ctxInstalls struct {
 // ctxChain follows request/context construction backwards: WithContext,
 // WithValue, phis. Keys are the string values of the contextKey constants.
 func (c *Ctx) ctxChain(v ssa.Value, depth int) ctxInstalls {
+	return c.ctxChainV(v, depth, map[*ssa.Phi]bool{})
+}
+
+func (c *Ctx) ctxChainV(v ssa.Value, depth int, visiting map[*ssa.Phi]bool) ctxInstalls {
 	out := ctxInstalls{must: map[string]ssa.Value{}, may: map[string][]ssa.Value{}}
-	if v == nil || depth > 12 {
+	if v == nil || depth > 24 {
 		return out
 	}
 	switch x := v.(type) {
 	case *ssa.Phi:
+		if visiting[x] {
+			return ctxInstalls{} // cycle: nil maps mark "no information" (neutral for the meet)
+		}
+		visiting[x] = true
+		defer delete(visiting, x)
 		first := true
 		for _, e := range x.Edges {
 			if e == x {
 				continue
 			}
-			ci := c.ctxChain(e, depth+1)
+			ci := c.ctxChainV(e, depth+1, visiting)
+			if ci.must == nil {
+				continue // loop-carried operand: whatever the other operands guarantee is kept
+			}
 			for k, vs := range ci.may {
 				out.may[k] = append(out.may[k], vs...)
 			}
@@ -50,11 +62,23 @@ func (c *Ctx) ctxChain(v ssa.Value, depth int) ctxInstalls {
 	case *ssa.Call:
 		switch Callee(x) {
 		case "(*net/http.Request).WithContext":
-			return c.ctxChain(Arg(x, 1), depth+1)
+			return c.ctxChainV(Arg(x, 1), depth+1, visiting)
 		case "(*net/http.Request).Context":
-			return c.ctxChain(Arg(x, 0), depth+1)
+			return c.ctxChainV(Arg(x, 0), depth+1, visiting)
 		case fnWithValue:
-			out = c.ctxChain(Arg(x, 0), depth+1)
+			out = c.ctxChainV(Arg(x, 0), depth+1, visiting)
+			if out.must == nil {
+				// parent is loop-carried: this call still installs its own key
+				out = ctxInstalls{must: nil, may: map[string][]ssa.Value{}}
+				key := Arg(x, 1)
+				if mi, ok := key.(*ssa.MakeInterface); ok {
+					key = mi.X
+				}
+				if k, ok := ConstStr(key); ok {
+					out.may[k] = append(out.may[k], Arg(x, 2))
+				}
+				return out
+			}
 			key := Arg(x, 1)
 			if mi, ok := key.(*ssa.MakeInterface); ok {
 				key = mi.X
